@@ -267,11 +267,12 @@ Proof.
       unfold step_facts, ok_change. rewrite G1, G2, G3. mf Hpc. cbn [s_ptr s_cur s_maps s_closed s_word].
       split; [split; [rewrite app_length; lia|]; split; [right; right; reflexivity|]; left; split; [reflexivity|]; split; [lia|]; intros X; left; exact X|].
       split; [intros X; contradiction|]. split; [intros _; right; split; [reflexivity|]; split; [reflexivity|]; intros g Eg; first [discriminate | (specialize (Hcur g Eg); intro X; injection X as X; lia)]|]. left; reflexivity.
-    + destruct (s_cur s) as [g0|] eqn:Ec; injection H as <- <-.
+    + destruct (s_cur s) as [g0|] eqn:Ec; [destruct (s_tight s) eqn:Eti|]; injection H as <- <-.
       * destruct (G (n_after_store_extend np) (mkT Done Changer (t_st u) (t_amt u) (t_old u) (Some g0) SameFile Done) eq_refl eq_refl) as (G1 & G2 & G3).
         unfold step_facts, ok_change. rewrite G1, G2, G3. mf Hpc. cbn [s_ptr s_cur s_maps s_closed s_word].
         split; [split; [rewrite app_length; lia|]; split; [right; right; reflexivity|]; left; split; [reflexivity|]; split; [lia|]; intros X; left; exact X|].
         split; [intros X; contradiction|]. split; [intros _; right; split; [rewrite Ec; reflexivity|]; split; [reflexivity|]; intros g Eg; rewrite Ec in Eg; injection Eg as <-; specialize (Hcur g0 eq_refl); intro X; injection X as X; lia|]. left; reflexivity.
+      * fs Hpc.
       * fs Hpc.
     + injection H as <- <-.
       destruct (G (n_after_store_rotate np) (mkT Done Changer (t_st u) (t_amt u) (t_old u) (s_cur s) NoFile Done) eq_refl eq_refl) as (G1 & G2 & G3).
